@@ -234,6 +234,7 @@ def check_config(ci):
             protos = [e['proto']] if e['proto'] else [6, 17]
             for src, dst, sp, dp, pr in itertools.product(corners_src, corners_dst, sports[:1 if ck.quick else 2], dports, protos):
                 pres = ['none', 'established', 'established+half-open', 'given-up', 'established:childless:send-failed',
+                        'established:liveness-check-outstanding', 'established:ike-rekey-outstanding',
                         'established:after-own-child-rekey', 'established:after-peers-child-rekey']
                 if any(x is not c and x['peer'] == c['peer'] for x in expect):
                     pres.append('sibling-established')      # an IKE_SA exists for ANOTHER connection with this peer address
@@ -378,6 +379,32 @@ def acquire_case(confs, addrs, expect, ci, ei, pol_index, src, dst, sport, dport
         n_before = len(a.controller.ike_sas)
         if n_before != 1:
             probs.append(('ike-sa-lost-after-send-failure', 'after the request of an ACQUIRE could not be sent A holds %d IKE_SAs' % n_before))
+    if pre in ('established:liveness-check-outstanding', 'established:ike-rekey-outstanding'):
+        # the IKE_SA with that peer is waiting for an answer (to its liveness check / to its rekey request) when the ACQUIRE
+        # arrives: the IKE_SA exists, so no second one is started; the ACQUIRE waits its turn and is negotiated on it (or on
+        # its successor) once the answer is in
+        w.step(('acquire', 'A', ci, 0))
+        w.deliver_all()
+        est = [i for i, s in enumerate(a.controller.ike_sas) if s.state == State.ESTABLISHED and s.peer_addr == c['peer'] and s.my_addr == c['my']]
+        if not est:
+            return [('precondition', 'could not establish the first IKE_SA with the peer')]
+        w.step(('due', 'A', est[0], 'dpd' if 'liveness' in pre else 'rekey_ike'))
+        held = list(w.net)
+        n_sas, n_nl, sent1 = len(a.controller.ike_sas) + (1 if 'rekey' in pre else 0), len(a.kernel.log), len(w.sent_log)
+        w.step(('kevent', 'A', raw))
+        if not a.alive:
+            return [('dies:%s' % a.dead_reason[0], 'ACQUIRE killed the daemon: %s' % a.dead_reason[1])]
+        inits = [d for d in w.sent_log[sent1:] if d.sender == 'A' and d.data[18] == 34]
+        if inits or len([s for s in a.controller.ike_sas if s.peer_addr == c['peer']]) > n_sas:
+            return [('second-ike-sa-while-waiting', 'the IKE_SA with the peer was waiting for the answer to its %s when the ACQUIRE came: '
+                     'A started another IKE_SA (%d IKE_SA_INIT requests, IKE_SAs %s)' % (
+                         'liveness check' if 'liveness' in pre else 'rekey request', len(inits), [s.state.name for s in a.controller.ike_sas]))]
+        w.deliver_all()
+        news = [r[1] for r in a.kernel.log[n_nl:] if r[1] and r[1]['type'] == K.XFRM_MSG_NEWSA and r[2] == 0]
+        if len(news) < 2:
+            return [('queued-acquire-not-negotiated', 'the ACQUIRE that arrived while the IKE_SA was waiting for an answer was never '
+                     'negotiated (%d SAs installed afterwards)' % len(news))]
+        return probs
     if pre in ('established:after-own-child-rekey', 'established:after-peers-child-rekey'):
         # the CHILD_SA of the IKE_SA has been rekeyed (by this end / by the peer) and the old one deleted; the ACQUIRE that
         # follows is a plain CREATE_CHILD_SA for the entry it names
